@@ -216,6 +216,23 @@ pub fn handle_setrange(storage: &Arc<StorageEngine>, db: usize, parts: &[RespFra
     };
     
     // Set range and handle WrongType errors properly
+    // Nothing to write: reply the current length and leave the key as it is (or absent)
+    if value.is_empty() {
+        return match storage.strlen(db, &key) {
+            Ok(len) => Ok(RespFrame::Integer(len as i64)),
+            Err(FerrousError::Storage(StorageError::WrongType)) => {
+                Ok(RespFrame::error("WRONGTYPE Operation against a key holding the wrong kind of value"))
+            },
+            Err(e) => Ok(RespFrame::error(format!("ERR {}", e))),
+        };
+    }
+    
+    // Strings are limited to 512MB; refusing here also keeps an absurd offset from
+    // sizing an allocation
+    if offset.checked_add(value.len()).map_or(true, |end| end > 512 * 1024 * 1024) {
+        return Ok(RespFrame::error("ERR string exceeds maximum allowed size (512MB)"));
+    }
+    
     match storage.setrange(db, key, offset, value) {
         Ok(new_len) => Ok(RespFrame::Integer(new_len as i64)),
         Err(FerrousError::Storage(StorageError::WrongType)) => {
